@@ -17,7 +17,7 @@ from pyee.asyncio import AsyncIOEventEmitter
 from .exceptions import InvalidStateError
 from .rtcdatachannel import RTCDataChannel, RTCDataChannelParameters
 from .rtcdtlstransport import RTCDtlsTransport
-from .utils import random32, uint16_add, uint16_gt, uint32_gt, uint32_gte
+from .utils import random32, uint16_add, uint16_gt, uint16_gte, uint32_gt, uint32_gte
 
 logger = logging.getLogger(__name__)
 
@@ -681,6 +681,7 @@ class RTCSctpTransport(AsyncIOEventEmitter):
         self._fast_recovery_exit = None
         self._fast_recovery_transmit = False
         self._forward_tsn_chunk: Optional[ForwardTsnChunk] = None
+        self._forward_tsn_streams: dict[int, int] = {}
         self._flight_size = 0
         self._local_tsn = random32()
         self._last_sacked_tsn = tsn_minus_one(self._local_tsn)
@@ -1170,7 +1171,8 @@ class RTCSctpTransport(AsyncIOEventEmitter):
         # advance sequence numbers
         for stream_id, stream_seq in chunk.streams:
             inbound_stream = self._get_inbound_stream(stream_id)
-            inbound_stream.sequence_number = uint16_add(stream_seq, 1)
+            if uint16_gte(stream_seq, inbound_stream.sequence_number):
+                inbound_stream.sequence_number = uint16_add(stream_seq, 1)
 
         # prune obsolete chunks and perform delivery
         for stream_id, inbound_stream in list(self._inbound_streams.items()):
@@ -1529,7 +1531,7 @@ class RTCSctpTransport(AsyncIOEventEmitter):
         for chunk in self._sent_queue:
             if not self._maybe_abandon(chunk):
                 chunk._retransmit = True
-        self._update_advanced_peer_ack_point()
+        self._update_advanced_peer_ack_point(retransmit=True)
 
         # adjust congestion window
         self._fast_recovery_exit = None
@@ -1635,15 +1637,16 @@ class RTCSctpTransport(AsyncIOEventEmitter):
 
             await self._send_reconfig_param(param)
 
-    def _update_advanced_peer_ack_point(self) -> None:
+    def _update_advanced_peer_ack_point(self, retransmit: bool = False) -> None:
         """
         Try to advance "Advanced.Peer.Ack.Point" according to RFC 3758.
         """
-        if uint32_gt(self._last_sacked_tsn, self._advanced_peer_ack_tsn):
+        if uint32_gte(self._last_sacked_tsn, self._advanced_peer_ack_tsn):
             self._advanced_peer_ack_tsn = self._last_sacked_tsn
+            self._forward_tsn_streams.clear()
 
         done = 0
-        streams = {}
+        streams = self._forward_tsn_streams
         while True:
             if self._sent_queue and self._sent_queue[0]._abandoned:
                 chunk = self._sent_queue.popleft()
@@ -1660,7 +1663,10 @@ class RTCSctpTransport(AsyncIOEventEmitter):
             if not (chunk.flags & SCTP_DATA_UNORDERED):
                 streams[chunk.stream_id] = chunk.stream_seq
 
-        if done:
+        if done or (
+            retransmit
+            and uint32_gt(self._advanced_peer_ack_tsn, self._last_sacked_tsn)
+        ):
             # build FORWARD TSN
             self._forward_tsn_chunk = ForwardTsnChunk()
             self._forward_tsn_chunk.cumulative_tsn = self._advanced_peer_ack_tsn
